@@ -63,7 +63,8 @@ func (m *MatchRegexp) Provision(_ caddy.Context) (err error) {
 	if m.Count == 0 {
 		m.Count = minCount
 	}
-	m.compiled, err = regexp.Compile(repl.ReplaceAll(m.Pattern, ""))
+	// only known placeholders are replaced: a repetition such as {4} is part of the expression
+	m.compiled, err = regexp.Compile(repl.ReplaceKnown(m.Pattern, ""))
 	if err != nil {
 		return err
 	}
